@@ -99,6 +99,34 @@ def oracle_step(case, ctx):
                 ctx.fail('rejected action changed the state', {'kind': 'reject'})
             if objs.canon_state(env.observation) != co0 or objs.canon_state(o0) != co0:      # by value: whether the same object is handed out again is not part of the property
                 ctx.fail('rejected action changed the memoised observation', {'kind': 'reject'})
+            # "change nothing" includes what cannot be seen yet: an environment that went through a rejection continues exactly like a twin
+            # with the same seed that did not (same composition, and again with a stochastic observation function over a 7x7 view, where a
+            # recomputed observation or a consumed random number shows)
+            legal = [objs.action(x) for x in allowed]
+            for comp2 in (comp, dict(comp, obs='stochastic_raytracing', view=[7, 7])):
+                e1, e2 = envs.mk_env(space, shape, comp2, reset_state=sd), envs.mk_env(space, shape, comp2, reset_state=sd)
+                traces = []
+                for e, rejected in ((e1, True), (e2, False)):
+                    e.set_seed(case['seed'])
+                    e.reset()
+                    tr = [objs.canon_state(e.observation)]
+                    if rejected:
+                        for _ in range(2):
+                            try:
+                                e.step(objs.action(a))
+                            except ValueError:
+                                pass
+                    tr.append(objs.canon_state(e.observation))
+                    for k in range(3):
+                        r, t = e.step(legal[(case['seed'] + k) % len(legal)])
+                        tr.append([float(r), bool(t), objs.canon_state(e.state), objs.canon_state(e.observation)])
+                    e.reset()
+                    tr.append([objs.canon_state(e.state), objs.canon_state(e.observation)])
+                    traces.append(tr)
+                if traces[0] != traces[1]:
+                    k = next(i for i, (x, y) in enumerate(zip(*traces)) if x != y)
+                    ctx.fail(f'after a rejected action the environment (observation function {comp2["obs"]}) no longer continues like a twin with the same seed that saw no rejection '
+                             f'(first difference at entry {k}: 0/1 = observation before/after the rejection, 2-4 = legal steps, 5 = reset)', {'kind': 'reject', 'aspect': 'continuation'})
             ctx.ev.case(case, nt=True, classes=['rejected_action'])
             return
         res = guarded(ctx, f'functional_step[{"+".join(comp["chain"])}|{",".join(r["name"] for r in comp["rewards"])}|{comp["term"]["name"]}]',
